@@ -95,6 +95,31 @@ Theorem C07_listing : forall u bs,
 Proof. exact listing. Qed.
 Print Assumptions C07_listing.
 
+(* the class listing (LoadClassBoards: the walk along the sibling chain of a class, at most ChildCount + 5 entries as in
+   pttbbs) RETURNS for every chain — also when children are refused, are no classes or are vacated slots: the walk
+   goes on with the next sibling — and what it returns is the chain filtered by "named class or link that the caller
+   may read, or administers, or is a named moderator of", in chain order. So every entry is such a child and carries
+   its title (sound), and, when the listable children fit the bound and the chain holds every board once, a child is
+   listed exactly when the rule allows or the caller administers boards or is a named moderator (complete). *)
+Theorem C07_class_listing : forall u cc chain,
+  exists l, load_class_boards u cc chain = Ok l /\
+    l = firstn (cc + 5) (map (summarize true u) (filter (class_listable u) chain)) /\
+    (forall s, In s l -> exists b, In b chain /\ s = summarize true u b /\ s_bid s = b_bid b /\
+       b_named b = true /\ is_group b = true /\ may_list (row u b) = true /\ s_title s = true) /\
+    ((length (filter (class_listable u) chain) <= cc + 5)%nat -> NoDup (map b_bid chain) ->
+       forall b, In b chain -> (In (b_bid b) (map s_bid l) <-> b_named b && is_group b && may_list (row u b) = true)).
+Proof. exact class_listing. Qed.
+Print Assumptions C07_class_listing.
+
+(* the full class listing (LoadFullClassBoards: every board number in turn) is the same filter over all boards *)
+Theorem C07_full_class_listing : forall u boards,
+  load_full_class_boards u boards = map (summarize true u) (filter (class_listable u) boards) /\
+  (forall s, In s (load_full_class_boards u boards) -> exists b, In b boards /\ s = summarize true u b /\ s_bid s = b_bid b /\
+     b_named b = true /\ is_group b = true /\ may_list (row u b) = true /\ s_title s = true) /\
+  (forall b, In b boards -> b_named b && is_group b && may_list (row u b) = true -> In (summarize true u b) (load_full_class_boards u boards)).
+Proof. exact full_class_listing. Qed.
+Print Assumptions C07_full_class_listing.
+
 (* the single-board summary always answers; it reveals the title exactly when the caller may list the board *)
 Theorem C07_summary_title : forall u b,
   s_title (load_board_summary u b) = may_list (row u b) /\ s_bid (load_board_summary u b) = b_bid b.
